@@ -522,7 +522,8 @@ def pytest_sessionfinish(session, exitstatus):
                 apply_all(used_changes, cr)
 
                 for test_file in cr.files():
-                    tree = ast.parse(test_file.new_code())
+                    # (a byte order mark at the start of the file is not part of the code)
+                    tree = ast.parse(test_file.new_code().lstrip("\ufeff"))
                     used = used_externals(tree)
 
                     required_imports = []
